@@ -324,7 +324,10 @@ func runTeeCase(c TeeCase) (outcome, []viol) {
 
 // ---- enumeration -----------------------------------------------------------
 
-const perUnitPerKey = 3
+const (
+	perUnitPerKey     = 3 // violating cases kept per work unit and key
+	maxReportedPerKey = 3 // findings reported per key (the first, i.e. smallest, cases); all are counted in violating_cases_per_key
+)
 
 type found struct {
 	key, msg string
@@ -357,7 +360,7 @@ type family struct {
 	fn    func(i int, u *unitRes)
 }
 
-func runFamily(r *enumx.Run, f family, byKey map[string]int64, perFam map[string]int64) {
+func runFamily(r *enumx.Run, f family, byKey, perFam map[string]int64, reported map[string]int) (complete bool) {
 	res := make([]unitRes, f.units)
 	done := r.Parallel(f.units, func(i int) { f.fn(i, &res[i]) })
 	var evals, nt int64
@@ -373,26 +376,26 @@ func runFamily(r *enumx.Run, f family, byKey map[string]int64, perFam map[string
 	if done < f.units {
 		r.Incomplete(fmt.Sprintf("%s: %d of %d work units evaluated before the budget ran out", f.name, done, f.units))
 	}
-	reported := map[string]int{}
 	for i := range res {
 		for _, x := range res[i].list {
-			if reported[x.key] < 20 {
+			if reported[x.key] < maxReportedPerKey {
 				reported[x.key]++
 				r.Violation(x.key, x.msg, x.c)
 			}
 		}
 	}
+	return done == f.units
 }
 
-// reducedMask: the composition subset used for the large limit (N=16): at
-// most 4 chunks, or every chunk of one byte except at most two boundaries
-// missing.
+// reducedMask: the composition subset used for the large limits (N=13..16): at
+// most 5 chunks, or one-byte chunks throughout except that at most three
+// chunk boundaries are missing.
 func reducedMask(l int, mask uint32) bool {
 	if l <= 1 {
 		return true
 	}
 	pc := bits.OnesCount32(mask)
-	return pc <= 3 || pc >= l-1-2
+	return pc <= 4 || pc >= l-1-3
 }
 
 func limitFamily(ns []int, reduced bool) family {
@@ -583,9 +586,10 @@ func run(r *enumx.Run, replay *enumx.ReplayCase) {
 	byKey := map[string]int64{}
 	perFam := map[string]int64{}
 	wall := map[string]float64{}
+	reported := map[string]int{}
 	var fams []family
 	if r.Thorough() {
-		fams = []family{teeFamily(9), multiFamily(1, 3), multiFamily(2, 3), multiFamily(3, 3), limitFamily(seq(0, 12), false), limitFamily([]int{16}, true)}
+		fams = []family{teeFamily(9), multiFamily(1, 3), multiFamily(2, 3), multiFamily(3, 3), limitFamily(seq(0, 12), false), limitFamily(seq(13, 16), true)}
 	} else {
 		fams = []family{teeFamily(6), multiFamily(1, 3), multiFamily(2, 3), multiFamily(3, 2), limitFamily(seq(0, 8), false)}
 	}
@@ -596,8 +600,9 @@ func run(r *enumx.Run, replay *enumx.ReplayCase) {
 			continue
 		}
 		t0 := time.Now()
-		runFamily(r, f, byKey, perFam)
-		r.Space(fmt.Sprintf("%s: %d cases", f.name, perFam[f.name]))
+		if runFamily(r, f, byKey, perFam, reported) {
+			r.Space(fmt.Sprintf("%s: %d cases", f.name, perFam[f.name]))
+		}
 		wall[f.name] = time.Since(t0).Seconds()
 	}
 	r.Set("evaluations_per_family", perFam)
